@@ -171,3 +171,23 @@ theorem dequeue_none (due : α → Int) {q : PQ α} : q.dequeue? due = none ↔ 
 
 end PQ
 end Vts
+
+namespace Vts
+namespace PQ
+variable {α : Type}
+/-- `dequeue` removes exactly one entry and keeps the others in their order (no hypothesis on the counts) -/
+theorem dequeue_split_list (due : α → Int) {q q' : PQ α} {x : α} (h : q.dequeue? due = some (x, q')) :
+    ∃ pre post c, q.items = pre ++ (x, c) :: post ∧ q'.items = pre ++ post := by
+  simp only [dequeue?] at h
+  cases hp : popMinBy (entryLt due) q.items with
+  | none => rw [hp] at h; simp at h
+  | some mr =>
+    obtain ⟨m, r⟩ := mr
+    rw [hp] at h
+    simp at h
+    obtain ⟨rfl, rfl⟩ := h
+    obtain ⟨pre, post, hl, hr, _, _⟩ :=
+      popMinBy_split _ (entryLt_trans due) (entryLt_negtrans due) _ _ _ hp
+    exact ⟨pre, post, m.2, by simpa using hl, hr⟩
+end PQ
+end Vts
